@@ -7,18 +7,25 @@ import Secp.Gen.Shared
   package-level function values — the base-point table lives in such a closure), every store whose
   target is rooted in one of them, every call that hands such memory to a parameter the callee may
   write through (write summaries are closed over calls; locals that alias parameters or shared
-  memory are resolved flow-insensitively), and the construct guarding each of these writes.
+  memory are resolved flow-insensitively), and the construct guarding each of these writes.  A
+  pointer-receiver method of ANOTHER package called on shared memory (e.g. atomic.Pointer.Store)
+  counts as a write unless it is a known synchronisation primitive or read-only accessor; and every
+  READ of a root that is written under sync.Once is listed with guard `.once` only when it is
+  ordered after an unconditional `Once.Do` statement of the same body (the accessor shape
+  `Do(init); return data` which the interleaving model's `onceDo` event stands for) — a lock-free
+  fast path that reads the pointer before `Do` is a fact with guard `.none`.
 
   Partial because: the interleaving model below is sequentially consistent (the Go memory model,
   the runtime and sync.Once's implementation are trusted), T6's may-alias approximation ignores
-  interfaces, function values and unsafe, and calls into other packages are assumed not to write
+  interfaces, function values and unsafe, and plain function calls into other packages are assumed not to write
   through their arguments.  A `-race` run of the real code from a fresh process supports it.
 -/
 namespace Secp.Props.C17
 open Secp.Conc Secp.Gen.Shared
 
 /-- every write into shared memory found in the source happens during package initialisation or
-    inside the function passed to sync.Once.Do -/
+    inside the function passed to sync.Once.Do, and every read of once-initialised memory is ordered
+    after the Once.Do call -/
 theorem read_only_after_init : readOnlyAfterInit facts = true := by decide
 
 /-- one step preserves the once-invariant -/
